@@ -224,8 +224,17 @@ def check(prog, res, tier):
                     if not (isinstance(o1, tuple) and len(o1) == 3 and o1[0] == 'encode' and o1[2] is u['oe']):
                         fails.append(definite(f'the record written is {w_el!r} ({o1 and o1[0]!r}), not the text encoded with the output encoding'))
                     elif not (isinstance(o2, tuple) and len(o2) == 3 and o2[0] == 'decode' and o2[2] is u['ie']):
+                        # recognised modification: decoded_text.replace(a, b) with two different literals changes every record
+                        # that contains a (records are arbitrary bytes); anything else opaque is "not recognised"
+                        changed = False
+                        if isinstance(o2, tuple) and len(o2) >= 4 and o2[0] == 'method' and o2[2] == 'replace' and len(o2[3]) >= 2:
+                            a_, b_ = it.py_key(it.resolve(o2[3][0])), it.py_key(it.resolve(o2[3][1]))
+                            base_o = getattr(it.resolve(o2[1]), 'origin', None)
+                            changed = isinstance(a_, str) and isinstance(b_, str) and a_ != b_ and a_ != '' and \
+                                isinstance(base_o, tuple) and len(base_o) == 3 and base_o[0] == 'decode'
                         fails.append(definite(f'the text that is encoded is {mid!r} ({(o2 and o2[0])!r} of the decoded record), not the '
-                                              f'record decoded with the input encoding: the conversion is no longer a pure transcoding'))
+                                              f'record decoded with the input encoding: the conversion is no longer a pure transcoding'
+                                              + (f' (every record containing {a_!r} is altered)' if changed else ''), firm=changed))
                     elif getattr(it.resolve(o2[1]), 'kind', None) != 'elem':
                         fails.append(definite(f'the value that is decoded is {o2[1]!r}, not the record read'))
             if wo not in u.get('closed', []):
